@@ -523,3 +523,25 @@ def contains_src(g, e, pred, depth=0):
             if x != e and contains_src(g, x, pred, depth + 1):
                 return True
     return any(contains_src(g, x, pred, depth) for x in e if isinstance(x, tuple))
+
+
+def canon_vars(g, e, depth=0):
+    """a local that is only a renamed hand-over of another value (`let mut b = helper(..)` where helper returns its own local; later
+    field stores do not change which object it is) is replaced by that value, so that both names denote one object.
+    e is UN-stripped provenance."""
+    if depth > 6 or not isinstance(e, tuple) or not e:
+        return e
+    if e[0] == "var" and len(e) == 3 and isinstance(e[1], int):
+        whole = _defs_exprs(g, g.insts[e[1]], e[2])
+        if len(whole) == 1 and isinstance(whole[0], tuple) and whole[0] and whole[0] != e:
+            w = whole[0]
+            if w[0] == "var":
+                return canon_vars(g, w, depth + 1)
+            if w[0] == "ret":
+                src = value_sources(g, w)
+                if len(src) == 1:
+                    x = next(iter(src))
+                    if isinstance(x, tuple) and x and x[0] == "var" and x != e:
+                        return canon_vars(g, x, depth + 1)
+        return e
+    return tuple(canon_vars(g, x, depth) if isinstance(x, tuple) else x for x in e)
